@@ -11,7 +11,7 @@ demux <fmt> <style> <e> <indel> <K>
       K × [ <fp> <rp> <fsp> <rsp> <fdl> <rdl> <fin> <rin> <mode> <ferr> <rerr> <fpi> <rpi> <ns>
             ns × [ <ftag> <rtag> <sample> <experiment> <extra> ] ]
       <id> <seq>
-      exp <n> n × [ 10 tokens ]                (generator's intent: ignored by the model)
+      cls <class> exp <n> n × [ 10 tokens ]    (generator's intent: ignored by the model)
       hits K × [ 4 × ( <n> n × [ <begin> <end> <mismatches> ] ) ]
 ```
 byte strings in hex (`-` = empty).  Result: `sheet-error`, `panic`, `fatal` or
@@ -42,7 +42,7 @@ def pSample : P Sample := do
   pure ⟨f, r, n, e, if x.isEmpty then [] else [("note", str x)]⟩
 
 /-- a marker as declared; the tag lengths are filled by `checkTagLength` (none = sheet rejected) -/
-def pMarker : P (Option Marker) := do
+def pMarker : P ((String × String) × Option Marker) := do
   let fp ← pStr; let rp ← pStr
   let fsp ← pInt; let rsp ← pInt
   let fdl ← pNat; let rdl ← pNat
@@ -53,8 +53,8 @@ def pMarker : P (Option Marker) := do
   let samples ← rep pSample ns
   match checkTagLength samples, noDupPairs samples with
   | some (fl, rl), true =>
-    pure (some ⟨fp, rp, fl, rl, fsp, rsp, UInt8.ofNat fdl, UInt8.ofNat rdl, fin, rin, mode, mode, samples⟩)
-  | _, _ => pure none
+    pure ((fp, rp), some ⟨fp, rp, fl, rl, fsp, rsp, UInt8.ofNat fdl, UInt8.ofNat rdl, fin, rin, mode, mode, samples⟩)
+  | _, _ => pure ((fp, rp), none)
 
 def pTriple : P (Int × Int × Int) := do
   let b ← pInt; let e ← pInt; let k ← pInt; pure (b, e, k)
@@ -84,6 +84,8 @@ def pDemux : P String := do
   let markers ← rep pMarker k
   let id ← pStr
   let seq ← pHex
+  pLit "cls"
+  let _ ← tok
   pLit "exp"
   let n ← pNat
   let _ ← rep tok (10 * n)
@@ -91,7 +93,8 @@ def pDemux : P String := do
   let hits ← rep pHits k
   let rest ← get
   if !rest.isEmpty then failure
-  match markers.mapM (fun x => x) with
+  if !primerUnicity (markers.map (·.1)) then pure "sheet-error" else
+  match markers.mapM (·.2) with
   | none => pure "sheet-error"
   | some ms => pure (showResult (extractMultiBarcode ms id seq hits))
 
